@@ -3,7 +3,8 @@ C08 — abrupt exits run each pending finally and iterator close exactly once, i
 
 Check = Lean theorems about the reference semantics `exec` (GojaModel.C08.Props) + three ties to /repo:
   corr:behaviour   goja (instrumented JS) vs refSem: event log and final completion, every generated program,
-                   modes F (function), S (script, completion value), G (generator return()/throw() injection)
+                   modes F (function), S (script, completion value), G (generator return()/throw() injection),
+                   A (async function: await before every log and at every try/catch/finally entry)
   corr:skeleton    real compiler dump of f (non-control instructions erased, jumps renormalised) vs compileCF
   corr:vm-vs-ref   model-internal: mini-VM on compileCF output vs refSem (what compileCF_correct states)
   corr:sites       built-in iteration sites vs the spec's IteratorClose rule (python oracle)
@@ -50,7 +51,7 @@ def toks(s):
 
 
 class JS:
-    """JavaScript translation.  mode F|S|G; fatal 'o' (stack overflow) | 'i' (interrupt);
+    """JavaScript translation.  mode F|S|G|A; fatal 'o' (stack overflow) | 'i' (interrupt);
     deco: variant bits for decorations the reference semantics does not see (let-loops, closures)."""
 
     def __init__(self, mode, fatal='o', deco=0):
@@ -62,7 +63,7 @@ class JS:
         if t == 'skip':
             return ''
         if t == 'log':
-            return 'log(%d);' % s[1]
+            return ('await 0; log(%d);' % s[1]) if self.mode == 'A' else 'log(%d);' % s[1]
         if t == 'seq':
             return (self.st(s[1], cur) + ' ' + self.st(s[2], cur)).strip()
         if t == 'brk':
@@ -78,11 +79,12 @@ class JS:
         if t == 'try':
             _, i, b, hasC, c, hasF, f = s
             # instrumentation uses `var _t = log(..)` (a VariableStatement: empty completion value)
-            out = 'try { %s%s }' % (("var _t = log('T%d'); " % i) if hasF else '', self.st(b, cur))
+            aw = 'await 0; ' if self.mode == 'A' else ''
+            out = 'try { %s%s%s }' % (("var _t = log('T%d'); " % i) if hasF else '', aw, self.st(b, cur))
             if hasC:
-                out += " catch (e) { var _t = log('C%d:'+cv(e)); %s }" % (i, self.st(c, cur))
+                out += " catch (e) { var _t = log('C%d:'+cv(e)); %s%s }" % (i, aw, self.st(c, cur))
             if hasF:
-                out += " finally { var _t = log('F%d'); %s }" % (i, self.st(f, cur))
+                out += " finally { var _t = log('F%d'); %s%s }" % (i, aw, self.st(f, cur))
             return out
         if t == 'loop':
             return self.loop(s, cur, None)
@@ -149,6 +151,10 @@ class JS:
             return decl + ' ' + body
         if self.mode == 'G':
             return 'function* f(){ %s %s }' % (decl, body)
+        if self.mode == 'A':
+            # async function: an `await` (a suspension + resumption through the job queue) before every log and at
+            # the entry of every try / catch / finally block; the reference semantics is that of a plain function
+            return 'async function f(){ %s %s }' % (decl, body)
         return 'function f(){ %s %s }' % (decl, body)
 
 
@@ -457,6 +463,10 @@ class Case:
     def bline(self):
         return 'B %s%s %s' % (self.mode, self.fatal, toks(self.prog))
 
+    def mline(self):
+        # model side: an async function body has the reference semantics of a function body
+        return 'B %s%s %s' % ('F' if self.mode == 'A' else self.mode, self.fatal, toks(self.prog))
+
     def js(self):
         return tojs(self.prog, self.mode, self.fatal, self.deco)
 
@@ -552,10 +562,11 @@ class Checker:
             t = toks(c.prog)
             full = c.mode == 'F' and do_kvw
             hl.append('%s %s%s %s @@ %s' % ('BK' if (full and c.deco == 0) else 'B', c.mode, c.fatal, t, js))
+            mm = 'F' if c.mode == 'A' else c.mode      # an async function body has the reference semantics of a function body
             if full:
-                ml.append('A %s%s %s' % (c.mode, c.fatal, t))
+                ml.append('A %s%s %s' % (mm, c.fatal, t))
             else:
-                ml.append('B %s%s %s' % (c.mode, c.fatal, t))
+                ml.append('B %s%s %s' % (mm, c.fatal, t))
         gout = run_sharded(ctx, [self.H], hl) if self.H else ['NO-HARNESS'] * len(cases)
         retried = 0
         for i, o in enumerate(gout):
@@ -623,7 +634,7 @@ class Checker:
     # ---- shrinking a behavioural disagreement
     def still_fails(self, case):
         g = self.goja_b([case])[0]
-        m = self.model_lines([case.bline()])[0]
+        m = self.model_lines([case.mline()])[0]
         if g.startswith('E:') or g.startswith('TIMEOUT') or 'SyntaxError' in g or m in ('PARSE-ERROR', 'NO-MODEL'):
             return None
         if g != m and self.classify(case, g, m) is None:
@@ -814,6 +825,8 @@ def case_sets(ctx):
         sets.append(('exhaustive depth<=2 narrow F', True, exh((0, 1, 2), 'F', 1)))
         sets.append(('exhaustive depth<=2 core S', True, exh((0, 1, 2), 'S', 0)))
         sets.append(('exhaustive depth<=2 core G', True, exh((0, 1, 2), 'G', 0)))
+        sets.append(('exhaustive depth<=2 core A (async function: await before every log and at every try/catch/finally entry)', True,
+                     exh((0, 1, 2), 'A', 0)))
         sets.append(('uncatchable at every position, depth<=1 wide F/S/G + depth 2 core F, overflow and interrupt', True,
                      lambda: fatal_set((0, 1), 'F', 2, 'oi')() + fatal_set((0, 1), 'S', 2, 'oi')() + fatal_set((0, 1), 'G', 2, 'oi')()
                      + fatal_set((2,), 'F', 0, 'o')()))
@@ -826,15 +839,15 @@ def case_sets(ctx):
                          (lambda k=k: [Case(p, 'F') for p in every(chains(3, 'F', 0), 10, k)])))
         sets.append(('exhaustive depth 2 wide-minus-narrow F', False,
                      lambda: [Case(p, 'F') for p in set(chains(2, 'F', 2)) - set(chains(2, 'F', 1))]))
-        sets.append(('every 12th (offset seed) of depth 3 core S and G', False,
-                     lambda: [Case(p, m) for m in 'SG' for p in every(chains(3, m, 0), 12, seed)]))
+        sets.append(('every 12th (offset seed) of depth 3 core S, G and A', False,
+                     lambda: [Case(p, m) for m in 'SGA' for p in every(chains(3, m, 0), 12, seed)]))
     else:
-        for mode in 'FSG':
+        for mode in 'FSGA':
             sets.append(('exhaustive depth<=2 wide %s' % mode, True, exh((0, 1, 2), mode, 2)))
         sets.append(('uncatchable at every position, depth<=2 wide F (overflow+interrupt), core S/G', True,
                      lambda: fatal_set((0, 1, 2), 'F', 2, 'oi')() + fatal_set((0, 1, 2), 'S', 0, 'oi')() + fatal_set((0, 1, 2), 'G', 0, 'oi')()))
         sets.append(('random programs depth<=5 (full grammar, decorations) x6000', True, rand_set(6000, 2)))
-        for mode in 'FGS':
+        for mode in 'FGSA':
             sets.append(('exhaustive depth 3 core %s' % mode, False, exh((3,), mode, 0)))
         sets.append(('uncatchable at every position, depth 3 core F', False, fatal_set((3,), 'F', 0, 'oi')))
         sets.append(('random programs depth<=5 x20000', False, rand_set(20000, 3)))
@@ -999,7 +1012,7 @@ def replay(ctx, path):
     c = Case(to_tuple(rp['prog']), rp.get('mode', 'F'), rp.get('fatal', 'o'), rp.get('deco', 0))
     ck = Checker(ctx, h, ctx.model_exe())
     g = ck.goja_b([c])[0]
-    m = ck.model_lines([c.bline()])[0]
+    m = ck.model_lines([c.mline()])[0]
     print('program  :', toks(c.prog))
     print('js       :', c.js())
     print('spec     :', m)
